@@ -33,7 +33,7 @@ func c20PutXattr(buf []byte, pos int, index byte, name string, offs uint16, inum
 // c20CheckValue: the attribute `key` is reported with exactly the size bytes at values[offs:].
 func c20CheckValue(res map[string][]byte, key string, values []byte, offs uint16, size uint32, maxv int) {
 	v, ok := res[key]
-	vp.AssertUnless("KF-C20-4", size == 0, ok, "every attribute on disk is reported")
+	vp.Assert(ok, "every attribute on disk is reported")
 	if !ok {
 		return
 	}
